@@ -60,6 +60,11 @@ def gen_cases(tier, seed):
                 for kind in ("generic", "symmetric", "almost", "first-group-symmetric", "last-group-symmetric", "nearly"):
                     yield {"w": "dense", "shape": shape, "groups": groups, "kind": kind, "shuffle_groups": bool(rng.integers(0, 2)),
                            "cseed": int(seed) * 141650939 % (2 ** 31) + next(cs)}
+                # value classes: stored element types whose own arithmetic saturates / wraps (masks, narrow integers), and infinite entries
+                for vals in ("bool", "int8", "uint8", "int32", "inf", "-inf"):
+                    for kind in ("generic", "symmetric"):
+                        yield {"w": "dense", "shape": shape, "groups": groups, "kind": kind, "shuffle_groups": bool(rng.integers(0, 2)), "vals": vals,
+                               "cseed": int(seed) * 141650939 % (2 ** 31) + next(cs)}
     for N in range(2, maxN):
         for s in (1, 2, 3):
             for R in (1, 2, 3):
@@ -93,12 +98,35 @@ def run_case(case, ctx):
         pos = tuple(int(rng.integers(0, s)) for s in shape)
         A = A.copy()
         A[pos] *= (1 + 1e-9)
+    vals = case.get("vals", "float")
+    Astored = A
+    if vals == "bool":
+        Astored = A > 0.3
+    elif vals == "int8":
+        Astored = np.clip(np.round(A * 45.0), -127, 127).astype(np.int8)
+    elif vals == "uint8":
+        Astored = np.clip(np.round(np.abs(A) * 90.0), 0, 255).astype(np.uint8)
+    elif vals == "int32":
+        Astored = np.round(A * 6.0e8).clip(-2 ** 31 + 1, 2 ** 31 - 1).astype(np.int32)
+    elif vals in ("inf", "-inf"):
+        # an infinite value on a whole orbit of positions (every within-group permutation of one index), so symmetry is not disturbed
+        Astored = A.copy()
+        pos = [int(rng.integers(0, s_)) for s_ in shape]
+        for perms in itertools.product(*[itertools.permutations(range(len(g))) for g in groups]):
+            q = list(pos)
+            for g, pm in zip(groups, perms):
+                for i_, m in enumerate(g):
+                    q[m] = pos[g[pm[i_]]]
+            Astored[tuple(q)] = np.inf if vals == "inf" else -np.inf
+    A = np.asarray(Astored, dtype=float)
+    ctx.feat(vals=vals)
     is_sym = refops.is_symmetric(A, groups)
     full = (sorted(m for g in groups for m in g) == list(range(N))) and len(groups) == 1
     ctx.feat(N=N, ngroups=len(groups), glen=len(groups[0]), full_group=full, kind=case["kind"], proper_subgroup=not full)
     garg = np.array(groups[0]) if len(groups) == 1 else np.array(groups)
-    T = ttb.tensor(A.copy())
-    want = refops.symmetrize(A, groups)
+    T = ttb.tensor(Astored.copy())
+    with np.errstate(invalid="ignore"):
+        want = refops.symmetrize(A, groups)
     results = {}
     for ver in (None, 1):
         op = "tensor.symmetrize"
